@@ -126,7 +126,7 @@ def make_case(spec, i):
     r = gen.rng_for(spec["seed"], "C06", spec["cls"], spec["stratum"], i)
     if spec["stratum"] == "sessions":
         return _sessions_case(info, spec, r)
-    g = gen.G(r, attr=info.attr)
+    g = gen.G(r, attr=info.attr, surrogates=True)
     k = r.choice([2, 2, 3, 3, 4])
     init = MISSING if r.random() < 0.1 else g.shape(info.kind, 2)
     ms = ModelState(info.kind, [init])
